@@ -190,6 +190,15 @@ Theorem C05w_height_full : forall h : nat, (h <= 30)%nat -> Height (2 ^ (Z.of_na
 Proof. exact Height_full. Qed.
 Print Assumptions C05w_height_full.
 
+(** IndexToPath h 0, 1, …, T-1 are exactly the path words of the stored nodes of the full level
+    mask T = 2^(h+1)-1, in pre-order — the list C04_allpaths proves AllPaths(T, 0, to) returns
+    for every to >= 2^62, and Decode walks *)
+Theorem C05w_enumerates : forall h : nat, (h <= 30)%nat ->
+  map (fun i => IndexToPath (Z.of_nat h) (Z.of_nat i)) (seq 0 (Z.to_nat (fullT h)))
+  = map (fun q => Some (enc h q)) (stored_nodes (fullT h) h).
+Proof. exact IndexToPath_enumerates_stored. Qed.
+Print Assumptions C05w_enumerates.
+
 Example C05w_nonvacuous :
   IndexToPath 30 1234567 = Some 0x96b3a3fffffff /\ IndexToPath 30 1234568 = Some 0x96b3b3fffffff /\
   (0x96b3a3fffffff ?= 0x96b3b3fffffff) = (1234567 ?= 1234568) /\
